@@ -53,6 +53,29 @@ extern "C" void h_ReadInstance_state()
     }
 }
 
+/* must-fail canary (vacuity guard) for h_ReadInstance_state: under the same assumptions the reader is called once for a working-session
+ * instance marked new whose read reports SEVERITY_INCOMPLETE (the case seed C16d needs), so the claim that this never happens has to be refuted */
+extern "C" void h_canary_ReadInstance_state_reachable()
+{
+    IN(int, in_sev); IN(int, in_state); IN(int, in_ftype); IN(int, in_incr); IN(int, in_id); IN(int, in_strict); IN(int, in_path);
+    __CPROVER_assume(in_incr >= 0 && in_incr <= 1000000000 && in_id >= 0 && in_id <= 1000000000);
+    STEPfile *f = mk_file();
+    MgrNode *node = mk_node();
+    __CPROVER_assume(in_sev >= SEVERITY_MAX && in_sev <= SEVERITY_NULL);
+    __CPROVER_assume(in_state == completeSE || in_state == incompleteSE || in_state == newSE || in_state == deleteSE);
+    __CPROVER_assume(in_ftype == VERSION_CURRENT || in_ftype == WORKING_SESSION);
+    f->_fileType = (FileTypeCode)in_ftype; f->_strict = in_strict != 0; f->_fileIdIncr = in_incr;
+    node->currState = (stateEnum)in_state; node->se = (SDAI_Application_instance *)malloc(sizeof(SDAI_Application_instance));
+    if (in_ftype == VERSION_CURRENT) __CPROVER_assume(in_state == newSE);   /* pass 2 of an exchange file works on the nodes pass 1 created */
+    g_node = node; g_read_sev = (Severity)in_sev; g_read_calls = 0; g_int_value = in_id;
+    /* "#5 = ( ... ) ;" : the '=' and the '(' that select the reading path, everything else is read by the stubs */
+    g_stream_arbitrary = 0; g_stream_script[0] = '='; g_stream_script[1] = in_path ? 'K' : '(';   /* simple instance (keyword) or complex instance */ g_stream_script[2] = ';'; g_stream_len = 3;
+    istream in; in._m_state = 0; in._m_have = 0; in._m_consumed = 0;
+    ostream out; std::string cmt;
+    SDAI_Application_instance *r = f->ReadInstance(in, out, cmt, true);
+    __CPROVER_assert(!(g_read_calls == 1 && in_ftype == WORKING_SESSION && in_state == newSE && in_sev == SEVERITY_INCOMPLETE && r == node->se), "canary: a working-session instance marked new is never read with SEVERITY_INCOMPLETE (must be refuted)");
+}
+
 /* the writer emits, for the i-th node in order, the letter of its state and then the instance; nodes without a state are skipped */
 extern "C" void h_WriteWorkingData()
 {
